@@ -111,7 +111,8 @@ def ensure_facts(fresh=False, repo=None):
     os.makedirs(facts_dir, exist_ok=True)
     cached = os.path.join(facts_dir, h + '.json')
     info = {'tree_hash': h, 'repo': repo, 'cached': False}
-    lock = open(os.path.join(CACHE, 'extract.lock'), 'w')
+    slot = os.environ.get('AFFCHECK_SLOT', '')   # development aid: parallel self-tests use one build directory (and lock) per slot
+    lock = open(os.path.join(CACHE, 'extract%s.lock' % slot), 'w')
     fcntl.flock(lock, fcntl.LOCK_EX)
     try:
         if os.path.exists(cached) and not fresh:
@@ -120,7 +121,7 @@ def ensure_facts(fresh=False, repo=None):
             if fresh:
                 tgt = tempfile.mkdtemp(prefix='afftgt-')
             else:
-                tgt = os.path.join(CACHE, 'tgt')
+                tgt = os.path.join(CACHE, 'tgt' + slot)
             out_dir = tempfile.mkdtemp(prefix='afffacts-')
             try:
                 f = _run_extract(repo, tgt, out_dir)
